@@ -12,9 +12,10 @@ long double script_poly_integral(Plan const& p, std::size_t n);
 // ------------------------------------------------------------------------------------------------
 // history: plain serial runs, everything armed (C02, C10, C17, C19 and the invariants)
 
-static void add_extreme_draws(Rng& r, Plan& p, double prob)
+void add_extreme_draws(Rng& r, Plan& p, double prob)
 {
-    if (p.eng != E_SCRIPT64 || !r.chance(prob)) return;
+    // (the scripted engines with 32 and 14 bits take the top bits of the forced value)
+    if ((p.eng != E_SCRIPT64 && p.eng != E_SCRIPT32 && p.eng != E_SCRIPT14) || !r.chance(prob)) return;
     u64 const per_call = p.dims + (p.integ == MULTI ? 1 : 0);
     u64 const total = p.total_calls() * per_call;
     if (total == 0) return;
@@ -53,6 +54,8 @@ static Plan gen_history(Rng& r, int tier, std::string const& focus)
         for (auto& c : p.calls) c = std::max<u64>(c, 2);
         if (p.fk == F_ZERO || p.fk == F_CONST) p.fk = F_POLY;
     }
+    // values whose squares (not the values themselves) are in the subnormal range of the numeric type
+    if (r.chance(focus == "C02" ? 0.06 : 0.03) && p.dims <= 3) p.fmag = tiny_exponent(r, p.nt) / 2 - static_cast<int>(r.below(8));
     add_extreme_draws(r, p, 0.5);
     if (p.integ != PLAIN && p.calls.size() >= 2 && r.chance(0.12))
     {
@@ -1381,6 +1384,7 @@ static void exec_protocol(Plan const& p, Report& rep)
     // accumulate forms it in the numeric type - bit for bit what the built-in callback compares with the
     // target - and (b) by an independent long double implementation
     std::vector<ld> rho, rho_lib, vcond;
+    ChkptView lib_view;
     ld unc = 0;
     {
         Plan q = p;
@@ -1393,6 +1397,7 @@ static void exec_protocol(Plan const& p, Report& rep)
         RunCtl c2 = ctl_from_plan(q);
         RunOut const out = s.run(q.calls, c2);
         if (out.threw || out.killed) return;
+        lib_view = s.w->view();
         rho = reference_rel_errors(s.w->view());
         unc = rel_error_uncertainty(s.w->view(), p.nt);
         vcond = reference_value_conditions(s.w->view());
@@ -1407,6 +1412,26 @@ static void exec_protocol(Plan const& p, Report& rep)
         bool const fa = std::isfinite(rho_lib[k]), fb = std::isfinite(rho[k]);
         // (the estimates of the iterations may cancel in the combination: its own condition number)
         ld const vc = (k < vcond.size()) ? vcond[k] : 1e30L;
+        // (an iteration of one call has no variance: with it the combination is not a number, and that
+        // is what the documented formula says)
+        bool defined = true;
+        for (std::size_t i = 0; i <= k && i < lib_view.results.size(); ++i)
+        {
+            ResultView const& r = lib_view.results[i];
+            if (r.fin == 0) continue;
+            ld const N = r.calls;
+            ld const var = (r.calls >= 2) ? (r.sumsq - r.sum * r.sum / N) / N / (N - 1) : 0.0L;
+            if (!(var > 0) || !std::isfinite(var) || !std::isfinite(1 / var)) defined = false;
+        }
+        if (defined && fb && !fa && rho[k] > 0 && rho[k] < 1e6L && unc < 0.25L && vc * eps_of(p.nt) < 1e-3L)
+        {
+            // the combination exists (finite positive variances, estimates that do not cancel) and the
+            // library reports none
+            rep.fail("C12", "combination", key, fmt(
+                "after iteration %zu the library's variance weighted combination has relative error %.21Lg, independent reference %.21Lg",
+                k, rho_lib[k], rho[k]));
+            return;
+        }
         if (fa && fb && rho[k] > 0 && unc < 0.25L && vc * eps_of(p.nt) < 1e-3L &&
             !(std::fabs(rho_lib[k] - rho[k]) <= (unc + 64 * eps_of(p.nt) * (1 + vc)) * rho[k]))
         {
